@@ -22,7 +22,7 @@ SPEC = dict(
                 "renderings and the code generated from the loaded graph."),
     level_note=("Freshness of slot-map keys is a hypothesis of the wiring theorems (the driver's LIFO free-list model reproduces the real keys). "
                 "Adjacency-list order and span-derived `loc_*` identifiers are not preserved by the JSON round trip and are canonicalised "
-                "(neither influences wiring or codegen order). Finding F20: `#var` markers in operator arguments are lost by the round trip."),
+                "(neither influences wiring or codegen order). Finding F20 (`#var` markers in operator arguments were lost by the round trip) is fixed in /repo (GraphNode::Operator is serialised with its raw arguments); operator arguments are compared exactly."),
     trusted_base=["slotmap key freshness / LIFO slot reuse", "serde / serde_json (round trip exercised, not modelled)",
                   "PortIndexValue ordering re-stated in the model (Int < Path < Elided)"],
     assumptions=["flat graphs come from FlatGraphBuilder::build on generated programs; module-boundary graphs are built through the public DfirGraph API"],
